@@ -122,6 +122,14 @@ def run(ctx, known, built):
         cnt = min(RS, summ["random_contours"] - b)
         shards.append(("rand", None, b, cnt, BR, "(rand_model %d)" % key, "(rand_spec %d)" % key,
                        rm[b // BR:(b + cnt + BR - 1) // BR], rs[b // BR:(b + cnt + BR - 1) // BR]))
+    segsum = json.load(open(os.path.join(out, "seg_summary.json")))
+    sm = ints(os.path.join(out, "seg_model.txt"))
+    ss = ints(os.path.join(out, "seg_spec.txt"))
+    SS = 1500 if ctx.thorough() else 400
+    for b in range(0, segsum["contours"], SS):
+        cnt = min(SS, segsum["contours"] - b)
+        shards.append(("seg", None, b, cnt, BR, "(seg_model %d)" % key, "(seg_spec %d)" % key,
+                       sm[b // BR:(b + cnt + BR - 1) // BR], ss[b // BR:(b + cnt + BR - 1) // BR]))
     tr = ints(os.path.join(out, "tr.txt"))
     trk = ints(os.path.join(out, "tr_kurbo.txt"))
     TS = 250000 if ctx.thorough() else 62500
@@ -185,6 +193,7 @@ def run(ctx, known, built):
         vals = coq_values(o) if rc == 0 else []
         rp = os.path.join(out, "block_%s_%s_%d.txt" % (kind, n, bb))
         line = {"exh": "block exh %d %s %d %d" % (key, n, bb, bc), "rand": "block rand %d %d %d" % (key, bb, bc),
+                "seg": "block seg %d %d %d" % (key, bb, bc),
                 "tr": "block tr %d %d %d" % (key, bb, bc)}[kind]
         open(rp, "w").write(line + "\n")
         rc2, o2 = sh([ctx.harness, "c20", "--replay", rp, "--out", out], timeout=600)
@@ -198,8 +207,8 @@ def run(ctx, known, built):
             if kind == "exh":
                 s5 = digits5(idx, n)
                 case = {"kind": "contour", "coords": "exh", "digits5": s5, "points": pretty5(s5)}
-            elif kind == "rand":
-                case = {"kind": "contour", "coords": "rand", "key": key, "index": idx}
+            elif kind in ("rand", "seg"):
+                case = {"kind": "contour", "coords": kind, "key": key, "index": idx}
             else:
                 case = {"kind": "transform", "key": key, "index": idx}
             if cm[k] != int(rows[k][0]):
@@ -214,7 +223,7 @@ def run(ctx, known, built):
         ctx.disagreements.append({"what": "block fingerprints differ between model/specification (Coq) and implementation",
                                   "blocks_differing": len(bad_blocks),
                                   "blocks_looked_into": sum(looked.values()),
-                                  "by_kind": {k: sum(1 for x in bad_blocks if x[0][0] == k) for k in ("exh", "rand", "tr")}})
+                                  "by_kind": {k: sum(1 for x in bad_blocks if x[0][0] == k) for k in ("exh", "rand", "seg", "tr")}})
 
     def size(c):
         return (len(c.get("digits5", "")) if c.get("coords") == "exh" else 100, c.get("index", 0))
@@ -284,23 +293,30 @@ def run(ctx, known, built):
 
     ctx.obligation("correspondence:C20 (%d shards)" % len(files), nshard_ok == len(files) and not ctx.disagreements,
                    "model and implementation differ")
-    total = summ["exhaustive_sequences"] + summ["random_contours"] + summ["transforms"]
+    total = summ["exhaustive_sequences"] + summ["random_contours"] + segsum["contours"] + summ["transforms"]
     ctx.cov.update({
         "evaluations": total,
-        "distinct_nontrivial": summ["exhaustive_accepted"] + summ["random_accepted"] + summ["transforms_not_small_integer"],
+        "distinct_nontrivial": summ["exhaustive_accepted"] + summ["random_accepted"] + segsum["accepted"] + summ["transforms_not_small_integer"],
         "rule": "contours: every sequence over {move,line,offcurve,curve,qcurve} of length <= %d (pairwise distinct "
                 "points and midpoints, exact arithmetic), each converted twice (Contour::new and Glyph::parse_raw) and "
-                "compared with model and specification in Coq; %d random contours of length 1..200 with coordinates "
+                "compared with model and specification in Coq; %d random contours of length 1..200 and %d contours built "
+                "from segment lists (long quadratic runs mixed with cubics, see segment_list_stream) with coordinates "
                 "from small integers, moderate and arbitrary finite doubles. Non-trivial contour = accepted by the "
                 "parser (the path is compared with spec_path). transforms: %d transform x point pairs derived from "
                 "the seed; non-trivial = not restricted to small integers (rounding, overflow, subnormals occur; %d "
                 "gave a non-finite result). Inputs are derived from the run's key by the same 63-bit integer "
                 "arithmetic on both sides; results are compared through 63-bit fingerprints of the bit patterns, "
-                "folded per block of %d/%d/%d cases." % (maxlen, summ["random_contours"], summ["transforms"],
+                "folded per block of %d/%d/%d cases." % (maxlen, summ["random_contours"], segsum["contours"], summ["transforms"],
                                                           summ["transforms_nonfinite_result"], BE, BR, BT),
         "exhaustive": True,
         "exhaustive_scope": "all point-type sequences of length <= %d" % maxlen,
         "input_distribution": summ,
+        "segment_list_stream": dict(segsum, rule="%d legal contours built as lists of segments (line | cubic with 0/1/2 "
+                                    "off-curves | qcurve after k off-curves | all off-curves), open or closed under a drawn "
+                                    "rotation, up to 150 points: first every pair (qcurve run of k, then cubic-2) for k = "
+                                    "0..70 in three layouts, then every triple (run k1, run k2, cubic-2) with k1+k2 in "
+                                    "{15,16,31,47,63} in two layouts, then drawn lists with k from: 50%% uniform 0..40, "
+                                    "30%% {14..17,30..33,63..65}, 20%% 0..3" % segsum["contours"]),
         "traces_validated_against_impl": total,
     })
     for ln in open(os.path.join(out, "rand_samples.txt")).read().strip().split("\n"):
@@ -312,6 +328,8 @@ def run(ctx, known, built):
 def contour_term(c):
     if c.get("coords") == "exh":
         return ('(with_coords_exh 0 (of_digits5 "%s"))' % c["digits5"], "contour exh %s" % c["digits5"])
+    if c.get("coords") == "seg":
+        return ("(seg_contour %d %d)" % (c["key"], c["index"]), "contour seg %d %d" % (c["key"], c["index"]))
     return ("(rand_contour %d %d)" % (c["key"], c["index"]), "contour rand %d %d" % (c["key"], c["index"]))
 
 
@@ -385,7 +403,7 @@ def replay(ctx, path):
     if c["kind"] == "contour" and c.get("coords") == "exh":
         line = "contour exh %s" % c["digits5"]
     elif c["kind"] == "contour":
-        line = "contour rand %d %d" % (c["key"], c["index"])
+        line = "contour %s %d %d" % (c.get("coords", "rand"), c["key"], c["index"])
     else:
         line = "transform %d %d" % (c["key"], c["index"])
     tmp = os.path.join(ctx.scratch, "replay.txt")
